@@ -1,0 +1,80 @@
+//go:build verif
+
+// Contracts for package seat_manager, read by /verif/govc (comment-only file; compiles to nothing).
+// Grammar: see /verif/DESIGN.md, appendix B.
+
+package seat_manager
+
+// ---- vocabulary -------------------------------------------------------------------------------
+
+//@ spec occ(sm, s) = sm.SeatData[s] != nil
+//@ spec Live(sm, s) = occ(sm, s) && sm.SeatData[s].IsIn && sm.SeatData[s].HasChips
+//@ spec ActiveAt(sm, s) = Live(sm, s) && !sm.SeatData[s].IsBetweenDealerBB
+//@ spec inRange(sm, s) = 0 <= s && s < sm.MaxSeat
+//@ spec cw(sm, s, k) = (s + k) % sm.MaxSeat
+//@ spec ccw(sm, s, k) = (s + sm.MaxSeat - k) % sm.MaxSeat
+//@ spec cwdist(sm, a, b) = (b - a + sm.MaxSeat) % sm.MaxSeat
+//@ spec between(sm, d, b, t) = 0 < cwdist(sm, d, t) && cwdist(sm, d, t) < cwdist(sm, d, b)
+
+// SmBase: shape of a seat manager. Seat keys are exactly 0..MaxSeat-1; occupants are distinct
+// objects with distinct ids.
+//@ spec SmBase(sm) = sm != nil && 2 <= sm.MaxSeat && sm.MaxSeat <= 10 && sm.SeatData != nil
+//@     && len(sm.SeatData) == sm.MaxSeat
+//@     && forall(k, 0, sm.MaxSeat, indom(sm.SeatData, k))
+//@     && all(k, indom(sm.SeatData, k) ==> inRange(sm, k))
+//@     && forall(a, 0, sm.MaxSeat, forall(b, 0, sm.MaxSeat, a != b && occ(sm, a) && occ(sm, b)
+//@           ==> sm.SeatData[a] != sm.SeatData[b] && sm.SeatData[a].ID != sm.SeatData[b].ID))
+
+// first seat clockwise after start (exclusive) satisfying a predicate, having inspected the other
+// MaxSeat-1 seats; -1 iff none.
+//@ spec firstLiveCW(sm, start, r) = (r == -1 && forall(j, 1, sm.MaxSeat, !Live(sm, cw(sm, start, j))))
+//@     || exists(k, 1, sm.MaxSeat, r == cw(sm, start, k) && Live(sm, r) && forall(j, 1, k, !Live(sm, cw(sm, start, j))))
+//@ spec firstActiveCW(sm, start, r) = (r == -1 && forall(j, 1, sm.MaxSeat, !ActiveAt(sm, cw(sm, start, j))))
+//@     || exists(k, 1, sm.MaxSeat, r == cw(sm, start, k) && ActiveAt(sm, r) && forall(j, 1, k, !ActiveAt(sm, cw(sm, start, j))))
+//@ spec firstLiveCCW(sm, start, r) = (r == -1 && forall(j, 1, sm.MaxSeat, !Live(sm, ccw(sm, start, j))))
+//@     || exists(k, 1, sm.MaxSeat, r == ccw(sm, start, k) && Live(sm, r) && forall(j, 1, k, !Live(sm, ccw(sm, start, j))))
+//@ spec firstActiveCCW(sm, start, r) = (r == -1 && forall(j, 1, sm.MaxSeat, !ActiveAt(sm, ccw(sm, start, j))))
+//@     || exists(k, 1, sm.MaxSeat, r == ccw(sm, start, k) && ActiveAt(sm, r) && forall(j, 1, k, !ActiveAt(sm, ccw(sm, start, j))))
+//@ spec firstOccCCW(sm, start, r) = (r == -1 && forall(j, 1, sm.MaxSeat, !occ(sm, ccw(sm, start, j))))
+//@     || exists(k, 1, sm.MaxSeat, r == ccw(sm, start, k) && occ(sm, r) && forall(j, 1, k, !occ(sm, ccw(sm, start, j))))
+
+// ---- debug output -----------------------------------------------------------------------------
+
+//@ func (*seatManager).printState
+//@   trusted debug printer: calls the logger closure, json.Marshal and fmt.Println only
+//@   modifies nothing
+
+// ---- circular scans (C04) ---------------------------------------------------------------------
+
+//@ func (*seatManager).nextInAndHasChipsSeatID
+//@   property C04 C05 C08
+//@   returns r
+//@   config M 2..10 : sm.MaxSeat = M, len(sm.SeatData) = M
+//@   requires SmBase(sm) && inRange(sm, startSeatID)
+//@   modifies nothing
+//@   ensures next-live: firstLiveCW(sm, startSeatID, r)
+
+//@ func (*seatManager).nextOccupiedSeatID
+//@   property C04 C05
+//@   returns r
+//@   config M 2..10 : sm.MaxSeat = M, len(sm.SeatData) = M
+//@   requires SmBase(sm) && inRange(sm, startSeatID)
+//@   modifies nothing
+//@   ensures next-active: firstActiveCW(sm, startSeatID, r)
+
+//@ func (*seatManager).previousOccupiedSeatID
+//@   property C04
+//@   returns r
+//@   config M 2..10 : sm.MaxSeat = M, len(sm.SeatData) = M
+//@   requires SmBase(sm) && inRange(sm, startSeatID)
+//@   modifies nothing
+//@   ensures prev-active: shouldActive ==> firstActiveCCW(sm, startSeatID, r)
+//@   ensures prev-occ: !shouldActive ==> firstOccCCW(sm, startSeatID, r)
+
+//@ func (*seatManager).previousOccupiedAliveSeatID
+//@   property C04
+//@   returns r
+//@   config M 2..10 : sm.MaxSeat = M, len(sm.SeatData) = M
+//@   requires SmBase(sm) && inRange(sm, startSeatID)
+//@   modifies nothing
+//@   ensures prev-live: firstLiveCCW(sm, startSeatID, r)
